@@ -375,7 +375,17 @@ impl<R: Read> Reader<R> {
 
         let file_size: u64 = match entry {
             RpmPayloadEntry::Cpio(ref c) => c.file_size as u64,
-            RpmPayloadEntry::Stripped(idx) => file_entries[idx as usize].size as u64,
+            // u32::MAX marks the trailer (see is_trailer()), which carries no data
+            RpmPayloadEntry::Stripped(u32::MAX) => 0,
+            RpmPayloadEntry::Stripped(idx) => file_entries
+                .get(idx as usize)
+                .ok_or_else(|| {
+                    io::Error::new(
+                        io::ErrorKind::InvalidData,
+                        "Stripped entry refers to a file index outside of the header's file list",
+                    )
+                })?
+                .size as u64,
         };
 
         Ok(Reader {
